@@ -72,13 +72,13 @@ def render (r : Row) (noMatches noRenames : Bool) (serFails : Bool := false) : S
 
 def asciiOf (b : Bytes) : String := String.ofList (b.map fun c => Char.ofNat c.toNat)
 
-def row (fs : List String) (serFails : Bool) : Option String :=
+def row (fs : List String) (serFails : Bool) (commit : Bool := false) : Option String :=
   match fs with
   | [cmd, json, quiet, dry, yes, preview, noRegex, noMatches, noRenames, failCallee] =>
     match (ofHex cmd).bind (fun b => cmd? (asciiOf b)),
           bit? json, bit? quiet, bit? dry, bit? yes, bit? preview, bit? noRegex, bit? noMatches, bit? noRenames with
     | some cmd, some json, some quiet, some dryRun, some yes, some preview, some noRegex, some noMatches, some noRenames =>
-      let r0 : Row := { cmd, json, quiet, dryRun, yes, preview, noRegex, planEmpty := noMatches && noRenames, failAt := none }
+      let r0 : Row := { cmd, json, quiet, dryRun, yes, preview, noRegex, commit, planEmpty := noMatches && noRenames, failAt := none }
       if failCallee == "-" then some (render r0 noMatches noRenames serFails)
       else match ofHex failCallee with
         | none => some "bad-req"
@@ -88,9 +88,13 @@ def row (fs : List String) (serFails : Bool) : Option String :=
     | _, _, _, _, _, _, _, _, _ => some "bad-req"
   | _ => some "bad-req"
 
-/-- `c19row <10 fields>` (every path valid UTF-8) or `c19rowx <10 fields> <serFails>` -/
+/-- `c19row <10 fields>` (every path valid UTF-8, no --commit), `c19rowx <10 fields> <serFails>`, `c19rowc <10 fields> <commit>` -/
 def dispatch : List String → Option String
   | "c19row" :: fs => row fs false
+  | "c19rowc" :: fs =>
+    match fs.getLast?.bind bit? with
+    | some c => row fs.dropLast false c
+    | none => some "bad-req"
   | "c19rowx" :: fs =>
     match fs.getLast?.bind bit? with
     | some sf => row fs.dropLast sf
